@@ -17,6 +17,10 @@
     a white-space byte is inserted after every stream (ISO 32000-1 §7.7.3.3 only guarantees that the division between streams
     falls on a token boundary): a loop that appends each stream also pushes a white-space constant; `concat()` / `flatten()`
     without a separator fuses the last token of one stream with the first of the next (`cm` + `0` -> `cm0`).
+ R6 font-key disambiguation sees every existing key: the key list handed to `collision_font_mapping` (which both decides which keys to
+    rename and treats the list as the set of names already taken) is the complete key list of the preserved font dictionary — no
+    `filter` / `retain` / `take` in its derivation. With a filtered list a renamed key can land on an existing preserved key and one
+    of the two fonts is dropped, so a text run is shown in another font.
 Not decided: equality of decoded content/resources; permutation correctness.
 """
 from .. import lib as L
@@ -29,6 +33,7 @@ CTOR = "page::Page::from_parsed_with_content"
 
 
 def run(ctx):
+    r6_font_keys_complete(ctx)
     facts = ctx.facts
     ctor = ctx.fn(CTOR, "anchor")
     td = ctx.fn("page::Page::to_dict", "anchor")
@@ -222,3 +227,23 @@ def run(ctx):
     else:
         ctx.violation("R4", "page-range:bounds-compared", "get_indices compares only %d index/bound pairs with the page count (Single, "
                       "Range start, Range end, List items need one each)" % cmps, gi.where())
+
+
+def r6_font_keys_complete(ctx):
+    facts = ctx.facts
+    fn = ctx.fn("writer::pdf_writer::PdfWriter::<W>::preserved_font_disambiguation_map", "R6")
+    fl = FL.flow(fn)
+    calls = L.calls_to(fn, ["collision_font_mapping"])
+    if not ctx.floor("R6", "collision_font_mapping call", len(calls), 1):
+        return
+    b, c, a, d = calls[0]
+    key = "preserved_font_disambiguation_map:all-keys-passed"
+    seen, drecs = fl.back_slice(FL.op_locals(a[0]))
+    narrowing = [L.short(cc.get("p") or "") for bb, cc in fl.calls_in_slice(drecs)
+                 if L.short(cc.get("p") or "") in ("filter", "filter_map", "retain", "take", "skip", "take_while", "skip_while", "step_by", "dedup")]
+    if narrowing:
+        ctx.violation("R6", key, "the key list handed to collision_font_mapping is narrowed by `%s`: the callee uses that list as the set "
+                      "of names already taken when it picks a new name, so a renamed key (`OrigHelvetica`) can collide with an existing "
+                      "preserved font of that name; one of the two is dropped and a text run is bound to a different font" % narrowing[0], fn.where(b))
+    else:
+        ctx.ok("R6", key, "the complete key list of the preserved font dictionary is passed", fn.where(b))
